@@ -575,11 +575,24 @@ macro_rules! pw_deriv {
     }};
 }
 
-pub fn drive_pwops(seed: u64, rounds: usize, sink: &mut Sink) -> usize {
+/// which = "scalar": scale / negate / translate (C15); "deriv": derivative (the piecewise half of C08)
+pub fn drive_pwops(seed: u64, rounds: usize, which: &str, sink: &mut Sink) -> usize {
     let mut rng = Rng::new(seed);
     let mut cov = OpCov(Default::default());
     for _ in 0..rounds {
         let rng = &mut rng;
+        if which == "deriv" {
+            pw_deriv!(Poly0, rng, sink, cov);
+            pw_deriv!(Poly1, rng, sink, cov);
+            pw_deriv!(Poly2, rng, sink, cov);
+            pw_deriv!(Poly3, rng, sink, cov);
+            pw_deriv!(Poly4, rng, sink, cov);
+            pw_deriv!(Poly5, rng, sink, cov);
+            pw_deriv!(Poly6, rng, sink, cov);
+            pw_deriv!(Poly7, rng, sink, cov);
+            pw_deriv!(Poly8, rng, sink, cov);
+            continue;
+        }
         pw_mul!(Poly1, rng, sink, cov);
         pw_mul!(Poly3, rng, sink, cov);
         pw_mul!(Poly8, rng, sink, cov);
@@ -599,15 +612,6 @@ pub fn drive_pwops(seed: u64, rounds: usize, sink: &mut Sink) -> usize {
         pw_translate!(Log<Poly1>, rng, sink, cov);
         pw_translate!(IntOfLogPoly4, rng, sink, cov);
         pw_translate!(IntOfLog<Poly6>, rng, sink, cov);
-        pw_deriv!(Poly0, rng, sink, cov);
-        pw_deriv!(Poly1, rng, sink, cov);
-        pw_deriv!(Poly2, rng, sink, cov);
-        pw_deriv!(Poly3, rng, sink, cov);
-        pw_deriv!(Poly4, rng, sink, cov);
-        pw_deriv!(Poly5, rng, sink, cov);
-        pw_deriv!(Poly6, rng, sink, cov);
-        pw_deriv!(Poly7, rng, sink, cov);
-        pw_deriv!(Poly8, rng, sink, cov);
     }
     cov.0.len()
 }
@@ -1340,4 +1344,54 @@ pub fn drive_serde(seed: u64, rounds: usize, sink: &mut Sink) -> usize {
         serde_form!(IntOfLogPoly4, rng, sink);
     }
     sink.n
+}
+
+// ===================================================================== grid cases of the models as events
+
+/// TLC-enumerated knot sets (integers) run through the real constructions under exact power-of-two
+/// scalings, logged as ordinary `spline` / `linear` events: the trace specification is the judge.
+pub fn replay_events(kind: &str, lines: &[Value], sink: &mut Sink) -> usize {
+    let mut n = 0;
+    for l in lines {
+        let kn: Vec<(i64, i64)> = l["knots"].as_array().unwrap().iter().map(|k| (k[0].as_i64().unwrap(), k[1].as_i64().unwrap())).collect();
+        match kind {
+            "spline" => {
+                for &(a, b, off) in &[(0i32, 0i32, 0.0f64), (-20, 3, 0.0), (7, -30, 0.0), (0, 0, 1024.0), (-10, 0, -3.0)] {
+                    let ks: Vec<Knot> = kn.iter().map(|&(x, y)| Knot { x: (x as f64 + off) * 2f64.powi(a), y: y as f64 * 2f64.powi(b) }).collect();
+                    let r = guarded(|| constrained_spline(&ks));
+                    let (ends, coef, pan) = match &r {
+                        Ok(p) => (ends_of(p), p.segments.iter().map(|s| jbs(&s.poly.0)).collect::<Vec<_>>(), false),
+                        Err(_) => (vec![], vec![], true),
+                    };
+                    sink.ev(json!({"ev":"spline","knots":jknots(&ks),"ends":jbs(&ends),"coef":coef,"panic":pan}));
+                    n += 1;
+                }
+            }
+            "linear" => {
+                // grid unit = eps/2 at base 0.25 (spacing of floats there is eps/4): gaps of 1 unit are positive but
+                // narrower than epsilon, gaps of 2 units are exactly epsilon; and a coarse scaling where every gap is wide
+                for &(base, unit) in &[(0.25f64, f64::EPSILON / 2.0), (0.0, 1.0), (-8.0, 0.5)] {
+                    let ks: Vec<Knot> = kn.iter().map(|&(x, y)| Knot { x: base + x as f64 * unit, y: y as f64 }).collect();
+                    let r = guarded(|| linear(&ks));
+                    let (ends, coef, pan, ts, fts) = match &r {
+                        Ok(p) => {
+                            let mut ts: Vec<f64> = ks.iter().map(|k| k.x).collect();
+                            for w in ks.windows(2) {
+                                ts.push(w[0].x / 2.0 + w[1].x / 2.0);
+                            }
+                            ts.push(ks[0].x - unit);
+                            ts.push(ks[ks.len() - 1].x + unit);
+                            let fts: Vec<f64> = ts.iter().map(|&t| p.evaluate(t)).collect();
+                            (ends_of(p), p.segments.iter().map(|s| jbs(&s.poly.0)).collect::<Vec<_>>(), false, ts, fts)
+                        }
+                        Err(_) => (vec![], vec![], true, vec![], vec![]),
+                    };
+                    sink.ev(json!({"ev":"linear","knots":jknots(&ks),"ends":jbs(&ends),"coef":coef,"panic":pan,"ts":jbs(&ts),"fts":jbs(&fts)}));
+                    n += 1;
+                }
+            }
+            _ => panic!("unknown kind {kind}"),
+        }
+    }
+    n
 }
